@@ -14,9 +14,14 @@ LEVEL = "proof"
 ASSUMPTIONS = [
     "per class: all common fields, all range/bool controllers, all options, all MIDI-map numbers and every element of every integer "
     "array payload are symbolic simultaneously within their element types; enum-typed controllers/array elements are case-split one at a time",
-    "Fmx's float32 custom waveform and the Sampler / MetaModule payloads are covered by their own contracts (bounded float part, C16, C15)",
+    "Fmx's float32 custom waveform: every frame is an arbitrary FINITE binary32 value, modelled as an opaque bit pattern (rvproof.floats.SymF32); "
+    "the only float fact used is the library axiom 'unpack(<f) of a non-NaN pattern is a float that packs back to the same pattern and float() of it "
+    "is itself' - the native contract fmx_custom_waveform_roundtrip (bounded) is that axiom's differential validation on real floats; infinities and NaN "
+    "payloads are outside the stated domain",
+    "the Sampler / MetaModule payloads are covered by their own contracts (C16, C15)",
     "unit-dependent controllers are verified under every unit in enum_controller_roundtrip / module_raw_codec (C10)",
 ]
+TRUSTED = ["struct code 'f' on symbolic values: binary32 values are opaque bit patterns; axiom pack(unpack(b)) == b for non-NaN patterns, float(x) is x (no float32 arithmetic is modelled)"]
 EXPLANATION = (
     "Synth(m).write_to -> read_sunvox_file(...).module (exactly what Module.clone does) is symbolically executed per module class with symbolic "
     "state; one obligation per field. The relational contract shows that the stand-alone and the in-project writer emit the same "
@@ -128,7 +133,7 @@ def empty_synth_refuses(H, _):
 @contract(
     "fmx_custom_waveform_roundtrip", ["C02"], kind="bounded",
     targets=["rv.modules.fmx:Fmx.specialized_iff_chunks", "rv.modules.fmx:Fmx.load_chunk", "rv.chunks.array:ArrayChunk.bytes", "rv.chunks.array:ArrayChunk._set_bytes"],
-    bound="float32 arrays are outside the engine's struct model ('f' with symbolic values): 200 seeded random float32 vectors + boundary vectors (0, -0.0, +-1, denormal, +-max float32), native clone() and project round trip, compared bit-exactly",
+    bound="native companion of the symbolic Fmx cases of synth_roundtrip / clone_is_synth_roundtrip / payload_in_project_roundtrip (which treat binary32 values as opaque bit patterns): 200 seeded random float32 vectors + boundary vectors (0, -0.0, +-1, denormal, +-max float32) through the real struct module, clone() and project round trip, compared bit-exactly",
 )
 def fmx_custom_waveform_roundtrip(H, _):
     """Fmx custom waveform: 256 float32 values survive clone() and a project round trip bit-exactly."""
